@@ -47,6 +47,7 @@ import (
 type (
 	pstr  struct{ s string } // Stringer with pointer receiver
 	perr  struct{ s string } // error with pointer receiver
+	verr  struct{ s string } // error with value receiver
 	both  struct{ x string } // Stringer AND error (value receivers), different texts
 	plain struct {           // no methods: rendered by fmt
 		A string
@@ -62,6 +63,7 @@ type (
 
 func (p *pstr) String() string { return p.s }
 func (p *perr) Error() string  { return p.s }
+func (e verr) Error() string   { return e.s }
 func (b both) String() string  { return "S:" + b.x }
 func (b both) Error() string   { return "E:" + b.x }
 
@@ -119,8 +121,14 @@ func indep(v any) string {
 	case **both:
 		// not a Stringer itself; dereferenced to a both VALUE, whose error arm comes first
 		return "E:" + (**x).x
-	case *perr:
+	case verr:
 		return x.s
+	case *verr:
+		return x.s
+	case *perr:
+		// Repr dereferences the pointer; the struct VALUE has no Error method (pointer
+		// receiver), so it is rendered by fmt like any struct. The same holds for errors.New.
+		return "{" + x.s + "}"
 	// pointers: dereferenced while non-nil
 	case *int:
 		if x == nil {
@@ -160,8 +168,8 @@ func indep(v any) string {
 		return fmt.Sprint([]byte(x))
 	case myBoo:
 		return fmt.Sprint(bool(x))
-	case error: // errors.New values
-		return x.Error()
+	case error: // errors.New values: *errors.errorString, see *perr
+		return "{" + x.Error() + "}"
 	}
 	return "\x00unknown-type:" + fmt.Sprintf("%T", v)
 }
@@ -185,7 +193,7 @@ func kindGroup(v any) string {
 		return "bytes"
 	case strNode, *strNode, *pstr, both, *both:
 		return "stringer"
-	case *perr, **both:
+	case *perr, **both, verr, *verr:
 		return "error"
 	case *int, **int, *bool, *string, *float64, *float32, *uint64, *int64, *[]byte, *plain:
 		return "pointer"
@@ -241,7 +249,7 @@ var kindClusters = func() map[string][]any {
 			ptr(true), myBoo(true), myBoo(false), int8(1), uint64(1), int64(1), "1.0", "+1", "01", float64(10), 10, "10", 100, "100", float64(100)},
 		"bytes-text": {[]byte("node-b"), "node-b", []byte{0xff, 0xfe, 'x'}, "[110 111 100 101 45 98]", []byte(""), "", myB("node-b"), myB{1, 2},
 			"[1 2]", []byte{1, 2}, ptr([]byte("node-b2")), "node-b2", myS("named-s"), "named-s", myS("node-b"), []byte("node-b1"), []byte("node-b10")},
-		"err-stringer": {errors.New("node-e"), "node-e", &perr{"node-pe"}, "node-pe", bv, bp, &bp, "S:x", "E:x", both{"y"}, "S:y",
+		"err-stringer": {errors.New("node-e"), "node-e", "{node-e}", &perr{"node-pe"}, "node-pe", verr{"node-ve"}, &verr{"node-ve"}, "node-ve", verr{"str-1"}, bv, bp, &bp, "S:x", "E:x", both{"y"}, "S:y",
 			strNode{"str-1"}, &strNode{"str-1"}, &pstr{"pstr-1"}, "pstr-1", strNode{"str-10"}, &pstr{"str-10"}, errors.New("str-1"), strNode{""}, errors.New("E:y")},
 		"ptr-named-struct": {ip, &ip, 5, myID(5), myID(6), "6", ptr("sp"), "sp", (*int)(nil), "<nil>", plain{"a", 1}, &plain{"a", 1},
 			plain{"a", 2}, "{a 1}", plain{"", 0}, "{ 0}", myF(5), myF(0.5), float64(0.5), myU(5), myU(6), ptr(int64(7)), 7, ptr(float64(7.5)), float32(7.5)},
@@ -369,7 +377,7 @@ func snapshotIndep(h *hash.ConsistentHash, ps []any) snap {
 // oracle of runHistory with node identity by the independent rendering. classOf maps the node
 // values involved in a failure to the input class of the violation key.
 func runEntriesHistory(c *kit.Case, pool []entry, baseRep int, newRing func() *hash.ConsistentHash, cl clauseSet,
-	ps []any, classOf func(vs ...any) string, extra map[string]any) (hist []eopRec, nontrivial bool) {
+	ps []any, classOf func(vs ...any) string, extra map[string]any, obsPrefix string) (hist []eopRec, nontrivial bool) {
 	r := c.R
 	h := newRing()
 	model := map[string]emember{}
@@ -449,15 +457,28 @@ func runEntriesHistory(c *kit.Case, pool []entry, baseRep int, newRing func() *h
 			nontrivial = true
 		}
 		cur := snapshotIndep(h, ps)
-		c.Obs("ops", 1)
-		c.Obs("probe_lookups", int64(len(ps)))
+		c.Obs(obsPrefix+"probe_lookups", int64(len(ps)))
+		if m, ok := model[e.id]; ok && m.replicas == 0 {
+			c.Obs(obsPrefix+"zero_replica_adds", 1)
+		}
 
 		// (a) membership
 		effective := 0
+		groups := map[string]int{}
 		for _, m := range model {
 			if m.replicas > 0 {
 				effective++
+				groups[kindGroup(m.node)]++
 			}
+		}
+		if groups["float"] >= 2 {
+			c.Obs(obsPrefix+"steps_with_2plus_float_nodes_on_ring", 1)
+		}
+		if groups["int"] >= 1 && groups["uint"] >= 1 {
+			c.Obs(obsPrefix+"steps_with_signed_and_unsigned_nodes_on_ring", 1)
+		}
+		if len(groups) >= 4 {
+			c.Obs(obsPrefix+"steps_with_4plus_node_kinds_on_ring", 1)
 		}
 		for i, o := range cur.ids {
 			if o == noneID {
@@ -494,22 +515,22 @@ func runEntriesHistory(c *kit.Case, pool []entry, baseRep int, newRing func() *h
 			switch {
 			case rec.Op == "Remove":
 				if prev.ids[i] != rec.Node {
-					c.Viol("C15/disruption-remove/"+classOf(node, prev.vals[i]), fmt.Sprintf("Remove(%s) moved probe %s from %s to %s", describe(node), describe(ps[i]), describe(prev.vals[i]), describe(cur.vals[i])), w())
+					c.Viol("C15/disruption-remove/"+classOf(node), fmt.Sprintf("Remove(%s) moved probe %s from %s to %s", describe(node), describe(ps[i]), describe(prev.vals[i]), describe(cur.vals[i])), w())
 				}
 			case !existed:
 				if cur.ids[i] != rec.Node {
-					c.Viol("C15/disruption-add/"+classOf(node, cur.vals[i]), fmt.Sprintf("%s(%s) of a new node moved probe %s from %s to %s", rec.Op, describe(node), describe(ps[i]), describe(prev.vals[i]), describe(cur.vals[i])), w())
+					c.Viol("C15/disruption-add/"+classOf(node), fmt.Sprintf("%s(%s) of a new node moved probe %s from %s to %s", rec.Op, describe(node), describe(ps[i]), describe(prev.vals[i]), describe(cur.vals[i])), w())
 				}
 			default:
 				if cur.ids[i] != rec.Node && prev.ids[i] != rec.Node {
-					c.Viol("C15/disruption-readd/"+classOf(node, cur.vals[i], prev.vals[i]), fmt.Sprintf("re-adding %s moved probe %s from %s to %s", describe(node), describe(ps[i]), describe(prev.vals[i]), describe(cur.vals[i])), w())
+					c.Viol("C15/disruption-readd/"+classOf(node), fmt.Sprintf("re-adding %s moved probe %s from %s to %s", describe(node), describe(ps[i]), describe(prev.vals[i]), describe(cur.vals[i])), w())
 				}
 			}
 			if c.Violated() {
 				break
 			}
 		}
-		c.Obs("probes_moved", int64(moved))
+		c.Obs(obsPrefix+"probes_moved", int64(moved))
 		prev = cur
 
 		// (b) history independence: rebuild from the final set, sorted and shuffled
@@ -536,7 +557,7 @@ func runEntriesHistory(c *kit.Case, pool []entry, baseRep int, newRing func() *h
 						}
 					}
 				}
-				c.Obs("rebuild_comparisons", 1)
+				c.Obs(obsPrefix+"rebuild_comparisons", 1)
 				if diff > 0 {
 					c.Viol("C15/history-dependence/"+classOf(cur.vals[first], ref.vals[first]),
 						fmt.Sprintf("%d of %d probes map differently on the ring reached by the history and on a ring built from the same final node set (order %d: %q); e.g. %s -> %s vs %s",
@@ -580,7 +601,7 @@ func runKinds(c *kit.Case, nProbes int) {
 		newRing = func() *hash.ConsistentHash { return hash.NewCustomConsistentHash(baseRep, nil) }
 	}
 	hist, nontrivial := runEntriesHistory(c, pool, baseRep, newRing, clauseSet{disruption: true}, probesExt(nProbes), kindClass,
-		map[string]any{"clusters": used})
+		map[string]any{"clusters": used}, "kinds_")
 	kinds := map[string]bool{}
 	sig := []any{"kinds", baseRep}
 	for _, o := range hist {
@@ -664,7 +685,7 @@ func runWeakHash(c *kit.Case, nProbes int) {
 	newRing := func() *hash.ConsistentHash { return hash.NewCustomConsistentHash(baseRep, nh.fn) }
 	class := "custom-hash-" + nh.name
 	hist, nontrivial := runEntriesHistory(c, pool, baseRep, newRing, clauseSet{disruption: false}, probesExt(nProbes),
-		func(...any) string { return class }, map[string]any{"hash_func": nh.name})
+		func(...any) string { return class }, map[string]any{"hash_func": nh.name}, "custom_hash_")
 	sig := []any{"weak", nh.name, baseRep}
 	for _, o := range hist {
 		sig = append(sig, o.Op, o.Node, o.As, o.Replicas)
